@@ -22,7 +22,7 @@ RULE = (
 )
 ASSUMPTIONS = ["dense reference simulator; photon i = i-th node of the graph in insertion order; tolerance 1e-9",
                "targets with an isolated vertex are a known finding (solver raises IndexError) and are counted as excluded"]
-REQUIRED_CLASSES = {"random": ["emitters>=2", "mcr_then_emit", "disconnected", "labels", "rep:g", "rep:s", "rep:sgen", "rep:dm",
+REQUIRED_CLASSES = {"lobes": ["emitters>=2", "mcr_then_emit", "branches>1"], "random": ["emitters>=2", "mcr_then_emit", "disconnected", "labels", "rep:g", "rep:s", "rep:sgen", "rep:dm",
                                "comp:dm", "comp:stab"]}
 
 
@@ -189,7 +189,18 @@ def enum_small(tier, seed):
     return out, True
 
 
+def strat_lobes(tier):
+    g = gg.st_lobes(7, 10 if tier == "quick" else 12, labels=True)
+    cfg = st.fixed_dictionaries({
+        "rep": st.sampled_from(["g", "s", "sgen"]), "compiler": st.just("stab"), "det": st.sampled_from([0, 1, "probabilistic"]),
+        "seed": st.integers(0, 10**6), "rowops": gs.st_rowops(11, 6),
+    })
+    return st.tuples(g, cfg).map(lambda t: dict(t[0], **t[1]))
+
+
 SUBS = [
     Sub("small", check, enum=enum_small, doc="every labelled graph n<=4 x 4 target representations (n=5 in thorough, one rep each)"),
     Sub("random", check, strategy=strat_random, n={"quick": 80, "thorough": 600}, shrink=False),
+    Sub("lobes", check, strategy=strat_lobes, n={"quick": 40, "thorough": 500}, shrink=False, timeout={"quick": 120, "thorough": 300},
+        doc="7-12 vertex chains of small lobes joined by bridges: measure-and-reset on a busy emitter followed by re-use, >=2 emitters"),
 ]
